@@ -568,14 +568,20 @@ type SentinelError struct {
 	Actor string
 	Op    string
 	K     int
+	// Anon: the text names neither actor nor operation, as when several runs fail for the same
+	// reason ("permission denied"); the value is still a distinct error.
+	Anon bool
 }
 
 func (e *SentinelError) Error() string {
+	if e.Anon {
+		return "verif-injected failure: operation not permitted"
+	}
 	return fmt.Sprintf("verif-injected failure %s/%s#%d", e.Actor, e.Op, e.K)
 }
 
 func (w *World) sentinel(o *op) error {
-	return &SentinelError{Actor: o.actor, Op: o.kind.String(), K: o.nth}
+	return &SentinelError{Actor: o.actor, Op: o.kind.String(), K: o.nth, Anon: o.fault != nil && o.fault.Anon}
 }
 
 // symPort renders kernel-chosen ports symbolically, in order of first appearance.
